@@ -561,7 +561,9 @@ def check_lme(k, cfg):
         # (D) statsmodels' conditional means of that very fit (same float64 inputs; both invert cov_re and a k_re x k_re system)
         if s in sm_re:
             b_sm = _sm_re_vector(sm_re[s], True)[:k_re]
-            if not np.all(np.abs(b - b_sm) <= 1e-6 * np.abs(b_sm).max() + 1e-13 * cond_m * cond_psi * (np.abs(b_sm).max() + 1e-3)):
+            tol_sm = 1e-6 * np.abs(b_sm).max() + 1e-13 * cond_m * cond_psi * (np.abs(b_sm).max() + 1e-3)
+            info["sm_tight" if tol_sm <= 1e-5 * (np.abs(b_sm).max() + 1e-3) else "sm_loose"] = info.get("sm_tight" if tol_sm <= 1e-5 * (np.abs(b_sm).max() + 1e-3) else "sm_loose", 0) + 1
+            if not np.all(np.abs(b - b_sm) <= tol_sm):
                 problems.append((f"lme.personalize|differs from statsmodels random_effects of the same fit|{tag}", f"{s}", b_sm.tolist(), b.tolist()))
         elif s.startswith("s"):
             problems.append((f"lme.fit|training individual unknown to the reference fit|{tag}", s, None, sorted(map(str, sm_re))))
@@ -648,6 +650,8 @@ def run_lme(shard, acc):
             if outcome is not None:
                 acc.outcome(outcome)
                 acc.count("lme fits accepted" if "refused" not in outcome and "failed" not in outcome else "lme fits refused")
+            acc.count("lme training individuals compared with statsmodels random_effects at <= 1e-5 relative", info.get("sm_tight", 0))
+            acc.count("lme training individuals compared with a conditioning-widened tolerance", info.get("sm_loose", 0))
             if material:
                 acc.nontriv(f"L{k:011d}{int(cfg['slope'])}{int(cfg['indep'])}xx")
             for sig, msg, exp, obs in problems:
